@@ -222,6 +222,34 @@ func main() {
 			inputs = append(inputs, in{files[i][:p], fmt.Sprintf("trunc%d:%s", p, names[i])})
 		}
 	}
+	// inputs that are not valid files (the result must still not depend on the
+	// fragmentation): a header chunk longer than 6 bytes; more tracks declared
+	// than present combined with every kind of last byte
+	al16 := []byte{0x00, 0x01, 0x03, 0x2F, 0x40, 0x51, 0x7F, 0x80, 0x81, 0x90, 0xC0, 0xF0, 0xF1, 0xF7, 0xF8, 0xFF}
+	for _, i := range idx[:4] {
+		f := files[i]
+		for extra := 1; extra <= 4; extra++ {
+			g := append([]byte{}, f[:8]...)
+			g[7] = byte(6 + extra)
+			g = append(g, f[8:14]...)
+			for k := 0; k < extra; k++ {
+				g = append(g, byte(0x10+k))
+			}
+			g = append(g, f[14:]...)
+			inputs = append(inputs, in{g, fmt.Sprintf("header-len-%d:%s", 6+extra, names[i])})
+		}
+		for _, last := range al16 {
+			for _, cut := range []int{0, 1, 3, 4} {
+				if len(f)-cut < 20 {
+					continue
+				}
+				g := append([]byte{}, f[:len(f)-cut]...)
+				g[11]++ // one more track declared than present
+				g = append(g, last)
+				inputs = append(inputs, in{g, fmt.Sprintf("missing-track+tail-%02X-cut%d:%s", last, cut, names[i])})
+			}
+		}
+	}
 	pairLimit := ctx.Pick(120, 1<<30)
 	tripleLimit := ctx.Pick(36, 60)
 	ctx.Jobs("frag", len(inputs), func(j int) {
